@@ -143,11 +143,11 @@ theorem parse_show : ∀ (k : Kind) (v : Val) (t : List Char),
     | n x =>
       simp [«show», Valid] at hs hv
       subst hs
-      have hne : (showNat x == ['0']) = false := by
-        rw [Bool.eq_false_iff]; intro h
-        have := showNat_eq_zero_text x (by simpa using h)
-        omega
-      simp [parse, hne, parseUnsigned_showNat _ _ hv.2]
+      have hp := parseUnsigned_showNat _ _ hv.2
+      simp only [parse, hp]
+      cases x with
+      | zero => omega
+      | succ y => rfl
     | _ => simp [«show», Valid] at hs hv
   | str =>
     intro v t hv hs
